@@ -18,6 +18,7 @@ T1  == VDict(<< <<VStr("a"), VDict(<< <<VStr("b"), VInt(1)>>, <<VStr("*"), VInt(
 OA  == VObj("A", << <<VStr("a"), VInt(1)>>, <<VStr("b"), VInt(2)>> >>)
 L12 == VList(<<VInt(1), VInt(2)>>)
 L5  == VList(<<VInt(5)>>)
+TOA == VDict(<< <<VStr("a"), OA>>, <<VStr("b"), VDict(<< <<VStr("c"), OA>> >>)>> >>)
 TAA == VDict(<< <<VStr("a"), VDict(<< <<VStr("a"), VInt(5)>>, <<VStr("b"), VInt(6)>> >>)>>, <<VStr("b"), VInt(7)>> >>)
 P(text, segs) == SPath(text, segs)
 Px == P("x", <<"x">>)
@@ -83,7 +84,11 @@ FullPool == <<
   Call(TAA, <<>>, 26, STuple(<<SRefDef("n", P("b", <<"b">>)), SProbe("id"), SRefUse("n")>>)),
   \* 27, 28: ONE Check object with two failing conditions (equal_to, then a validator = yield point) on two targets
   Call(L5, <<>>, 27, SCheck(VInt(0), "vfalse")),
-  Call(L12, <<>>, 27, SCheck(VInt(0), "vfalse"))
+  Call(L12, <<>>, 27, SCheck(VInt(0), "vfalse")),
+  \* 29, 30: two calls that fail to iterate an instance of the same unregistered type, reached at
+  \* different paths: each error (message, path) is the call's own
+  Call(TOA, <<>>, 29, STuple(<<Pa, SProbe("id"), SEach("list", SProbe("id"))>>)),
+  Call(TOA, <<>>, 30, STuple(<<P("b.c", <<"b", "c">>), SProbe("id"), SEach("list", SProbe("id"))>>))
 >>
 C20Pool == SubSeq(FullPool, PoolFrom, PoolFrom + PoolSize - 1)
 
